@@ -332,13 +332,21 @@ def check_html(ctx, tag, attrs, style, content, inner):
 # ------------------------------------------------------------------ calls
 
 
-def check_call(ctx, form, head, args):
+def check_call(ctx, form, head, args, multiline=False):
     from wikitextprocessor import NodeKind, WikiNode
 
     K = NodeKind
-    if form == "template":
+    if form == "template" and multiline:
+        # the usual way long calls are written: one argument per line
+        text = "{{" + head + "".join("\n| " + a for a in args) + "\n}}"
+        kind, n_args = K.TEMPLATE, 1 + len(args)
+    elif form == "template":
         text = "{{" + "|".join([head] + args) + "}}"
         kind, n_args = K.TEMPLATE, 1 + len(args)
+    elif form == "pfn" and multiline:
+        text = ("{{" + head + ": " + args[0]
+                + "".join("\n| " + a for a in args[1:]) + "\n}}")
+        kind, n_args = K.PARSER_FN, 1 + max(1, len(args))
     elif form == "pfn":
         text = "{{" + head + ":" + "|".join(args) + "}}"
         kind, n_args = K.PARSER_FN, 1 + max(1, len(args))
@@ -368,7 +376,7 @@ def check_call(ctx, form, head, args):
         return ({"kind": "arg-count", "form": form},
                 f"{len(n.largs)} argument lists expected {n_args}: "
                 f"{n.largs!r}"[:300]), text
-    if n.largs[0] != [head]:
+    if [x.strip() if isinstance(x, str) else x for x in n.largs[0]] != [head]:
         return ({"kind": "call-head", "form": form}, repr(n.largs[0])), text
     written = args if form != "extlink" else args[:1]
     for i, a in enumerate(written):
@@ -488,6 +496,12 @@ def shard(idx, nshards, seed, quick, n_random, known):
                        ["call:" + form],
                        {"part": "call", "form": form, "head": head,
                         "args": list(args)})
+                if form in ("template", "pfn") and L >= 1:
+                    r, text = check_call(ctx, form, head, list(args), True)
+                    handle(r, text, ["call-ml", form, args], nt,
+                           ["call:" + form + ":multiline"],
+                           {"part": "call", "form": form, "head": head,
+                            "args": list(args), "multiline": True})
 
     def body_table(spec):
         r, text = check_table(ctx, spec)
@@ -568,7 +582,8 @@ def replay(run, case):
             r, text = check_html(ctx, case["tag"], case["attrs"], case["style"],
                                  case["content"], case["inner"])
         else:
-            r, text = check_call(ctx, case["form"], case["head"], case["args"])
+            r, text = check_call(ctx, case["form"], case["head"], case["args"],
+                                 bool(case.get("multiline")))
     finally:
         ctx.close_db_conn()
     run.case(h(case), True, sample={"text": text[:300]})
